@@ -208,13 +208,14 @@ def check_base(ctx: core.Ctx, mod: ast.Module):
     ok = False
     from .. import normast
     fd = normast.Normaliser(normast.class_resolver(mod, base)).function(fd)
-    # canonical form: if data.shape == cls.shape: return cls(_data=data) else: raise
+    # canonical (guard) form: if data.shape != cls.shape: raise ...; return cls(_data=data)
     for i, s in enumerate(fd.body):
-        if isinstance(s, ast.If) and isinstance(s.test, ast.Compare) and isinstance(s.test.ops[0], ast.Eq) \
+        if isinstance(s, ast.If) and isinstance(s.test, ast.Compare) and isinstance(s.test.ops[0], ast.NotEq) and not s.orelse \
                 and {ast.unparse(s.test.left), ast.unparse(s.test.comparators[0])} == {"data.shape", "cls.shape"} \
-                and s.orelse and isinstance(s.orelse[0], ast.Raise) and all(isinstance(p_, (ast.Assert, ast.Expr)) for p_ in fd.body[:i]):
-            ok = len(s.body) == 1 and isinstance(s.body[0], ast.Return) and s.body[0].value is not None \
-                and ast.unparse(s.body[0].value).replace(" ", "") == "cls(_data=data)"
+                and len(s.body) == 1 and isinstance(s.body[0], ast.Raise) and all(isinstance(p_, (ast.Assert, ast.Expr)) for p_ in fd.body[:i]):
+            rest = fd.body[i + 1:]
+            ok = len(rest) == 1 and isinstance(rest[0], ast.Return) and rest[0].value is not None \
+                and ast.unparse(rest[0].value).replace(" ", "") == "cls(_data=data)"
     ctx.oblige("NV-FROMDATA", where, "from_data: shape != cls.shape -> raise; return cls(_data=data)", ok, file=COMMON, func="_NamedArrayBase.from_data",
                construct="from_data", msg="from_data does not refuse a wrongly shaped array before constructing")
     fdict = core.need(core.find_func(base, "from_dict"), "common._NamedArrayBase.from_dict")
